@@ -245,10 +245,26 @@ pub mod rust_log_ref_finder
                                         ));
 
                                         ref_kind = LogRefKind::StructuredPreExisting;
-                                        reference = match span.as_str().parse::<u32>()
+                                        /*
+                                         * The value's span also covers any whitespace and comments
+                                         * between the value and the separator that follows it.
+                                         */
+                                        let value_text = span.as_str();
+                                        let digits_end = value_text
+                                            .find(|c: char| !c.is_ascii_digit())
+                                            .unwrap_or(value_text.len());
+
+                                        reference = if RustParser::parse(
+                                            Rule::layout_only,
+                                            &value_text[digits_end..],
+                                        )
+                                        .is_ok()
                                         {
-                                            Err(_) => None,
-                                            Ok(val) => Some(val),
+                                            value_text[..digits_end].parse::<u32>().ok()
+                                        }
+                                        else
+                                        {
+                                            None
                                         };
 
                                         break;
